@@ -44,6 +44,14 @@ type Obs struct {
 	Late      int     `json:"late_effects"`
 	Allowed   int     `json:"allowed_late"`
 	GateKind  string  `json:"gate_kind"`
+	Evs       []Ev    `json:"evs"` // deferred host calls: reg(tag) at the defer statement (its argument), rel(id) when the deferred call runs
+}
+
+// Ev is one observable event of the defer discipline (AnkoDefer.tla): depth = the invocation depth the program text gave the tag (tag / 10).
+type Ev struct {
+	Ev    string `json:"ev"`
+	ID    int64  `json:"id"`
+	Depth int64  `json:"depth"`
 }
 
 const limit = 5 * time.Second
@@ -57,6 +65,9 @@ type run struct {
 	done     int32
 	kind     atomic.Value
 	t0       atomic.Value
+	mu       sync.Mutex
+	evs      []Ev
+	nreg     int64
 }
 
 var cur atomic.Value // *run
@@ -165,6 +176,29 @@ func one(p Prog, k int) Obs {
 	e := env.NewEnv()
 	e.Define("p", func(x interface{}) interface{} { atomic.AddInt64(&r.effects, 1); return x })
 	e.Define("p2", func(a, b interface{}) interface{} { atomic.AddInt64(&r.effects, 1); return b })
+	// reg(tag): evaluated as the ARGUMENT of a defer statement, i.e. when the call is registered; gives the registration a unique id.
+	// rel(id): the deferred host call itself (what defer is for: unlock, close, release).  Neither counts as a script effect.
+	e.Define("reg", func(tag int64) int64 {
+		r.mu.Lock()
+		defer r.mu.Unlock()
+		r.nreg++
+		id := r.nreg*100 + tag
+		r.evs = append(r.evs, Ev{"reg", id, tag / 10})
+		return id
+	})
+	e.Define("rel", func(id int64) {
+		r.mu.Lock()
+		defer r.mu.Unlock()
+		r.evs = append(r.evs, Ev{"rel", id, (id % 100) / 10})
+	})
+	e.Define("cancelnow", func() { // the host cancels from inside a call the script makes (e.g. a deferred one)
+		if atomic.CompareAndSwapInt32(&r.done, 0, 1) {
+			atomic.StoreInt64(&r.atCancel, atomic.LoadInt64(&r.effects))
+			r.kind.Store("hostcall")
+			r.t0.Store(time.Now())
+		}
+		cancel()
+	})
 	e.Define("big", big)
 	e.Define("bigmap", bigMap)
 	if p.Pre != "" {
@@ -249,6 +283,9 @@ func one(p Prog, k int) Obs {
 	}
 	cancel()
 	cur.Store((*run)(nil))
+	r.mu.Lock()
+	o.Evs = append([]Ev{}, r.evs...)
+	r.mu.Unlock()
 	return o
 }
 
